@@ -163,6 +163,28 @@ class IndexModel:
     def decide_eq(self, a, b):
         return self.decide(lambda pr: pr.prove_eq(a, b), lambda env: a.eval(env) != b.eval(env))
 
+    def decide_is_predecessor(self, v):
+        """v == (own - 1) mod L: the same ring walked the other way round."""
+        O, Lh = Lin.atom("own"), Lin.atom("L")
+
+        def goal(pr):
+            p1 = pr.clone()
+            p1.assume_le(Lin.const(1), O)
+            p2 = pr.clone()
+            p2.assume_le(O, Lin.const(0))
+            return (p1.infeasible() or p1.prove_eq(v, O - 1)) and (p2.infeasible() or p2.prove_eq(v, Lh - 1))
+        return self.decide(goal, lambda env: v.eval(env) != (env["own"] - 1) % env["L"])
+
+    def decide_is_step(self, v):
+        """('proved', +1 | -1) if v is own + 1 or own - 1 modulo L for every admissible state, else the verdict for + 1."""
+        up = self.decide_is_successor(v)
+        if up == "proved":
+            return up, 1
+        down = self.decide_is_predecessor(v)
+        if down == "proved":
+            return down, -1
+        return up, 1
+
     def decide_is_successor(self, v):
         """v == (own + 1) mod L."""
         O, Lh = Lin.atom("own"), Lin.atom("L")
